@@ -389,6 +389,8 @@ def jobs(tier):
         out.append(Job('type-variable-free-%s' % lang, h_variable_free, dict(lang=lang), serial=True, functions=FUNCS[7:10],
                        stubs=STUBS, require_events=['rebuilt'],
                        bounds='G<v X> with 3 argument shapes; both switches symbolic', outside=OUT))
+    from vlib import genunits_cls as UC
+    out += UC.jobs('C17', tier, langs, units=('class_members',))
     return out
 
 
